@@ -168,12 +168,6 @@ abbrev MState := List (Path × PState)
 
 def pathC : Codec Path := arr str
 
-def bytesLt : Bytes → Bytes → Bool
-  | [], [] => false
-  | [], _ :: _ => true
-  | _ :: _, [] => false
-  | a :: as, b :: bs => if a < b then true else if b < a then false else bytesLt as bs
-
 /-- `std::vector<std::string>::operator<` (lexicographic, strings by unsigned bytes) -/
 def pathLt : Path → Path → Bool
   | [], [] => false
